@@ -76,6 +76,9 @@ const (
 	// TgBadPrecompile is the pairing precompile (0x08, all scenario forks): it rejects every input whose length is
 	// not a multiple of 192 (the callee fails, all forwarded gas is gone) and answers 32 bytes to an empty input
 	TgBadPrecompile
+	// TgAbsent is an address with no account behind it (a zero-value CALL to it does nothing at all on the
+	// scenario forks; a value-bearing one creates the account)
+	TgAbsent
 )
 
 type Frame struct {
@@ -165,6 +168,8 @@ func (f *Frame) String() string {
 			out += ")->self "
 		case TgBadPrecompile:
 			out += ")->failing-precompile "
+		case TgAbsent:
+			out += ")->absent "
 		}
 	}
 	if f.Post != ENone {
@@ -239,6 +244,7 @@ var (
 	Precompile = common.BytesToAddress([]byte{4})
 	// BadPrecompile: see TgBadPrecompile
 	BadPrecompile = common.BytesToAddress([]byte{8})
+	AbsentAddr    = gen.Absent
 )
 
 func FrameAddr(id int) common.Address { return world.ContractAddr(100 + id) }
@@ -396,6 +402,8 @@ func compileFrame(f *Frame, fork world.Fork, static bool, depth int, shared bool
 				to = FrameAddr(f.ID)
 			case TgBadPrecompile:
 				to = BadPrecompile
+			case TgAbsent:
+				to = AbsentAddr
 			}
 			p.Push(32).Push(outOff).Push(uint64(c.InLen)).Push(0)
 			if c.Kind == KCall || c.Kind == KCallCode {
